@@ -49,6 +49,71 @@ example : 10 ≤ (Gen.PipeSpawns.all.filter (fun k => k.1 == "share/dkg/pedersen
     10 ≤ (Gen.PipeSpawns.all.filter (fun k => k.1 == "dosnode" && k.2.1 != "DosNode.Start")).length := by
   decide +kernel
 
+/-! ## loops without channel operations
+
+The translator emits nothing for a loop whose body has no channel operation (an internal choice followed
+by internal choices is one internal choice): a retry loop `for { if err := p.Request(ctx, …); err != nil
+{ sleep; continue }; break }` added to a stage leaves the IR unchanged while the goroutine may never
+return once the context is done (review G, finding 2).  That such loops end is the `data` clause of
+`Fair` — an assumption about the code, pinned here loop by loop. -/
+
+/-- **opaque_loops_are_pinned.**  Every `for` statement of the packages the pipelines live in (dosnode,
+share/dkg/pedersen, utils, p2p, onchain) that is not a `range` and whose body contains no channel
+operation (no `select`, send or receive: class `opaque`) is one of the loops of
+`Model/PipeSpawnKnown.lean: opaqueLoops`, each listed with the reason it ends; and NONE of them is in a
+pipeline stage except the counting loop of `choseSubmitter`.  A new retry / polling loop, or a loop whose
+`select` on the context is removed (its class changes from `ctx-select` to `opaque`), breaks this theorem. -/
+theorem opaque_loops_are_pinned :
+    Gen.PipeSpawns.loops.all (fun l =>
+      l.2.2.2.1 == "range" || l.2.2.2.2.2 != "opaque" || opaqueLoops.contains l) = true := by
+  decide +kernel
+
+/-- non-vacuity: the inventory sees the loops of the stages (the retry loops of `sendToMembers` and
+`genDealsAndSend` are `forever` loops with a `select` on the session context), more than a hundred loops in
+all; a retry loop without a select in `dispatchSign` would not be covered -/
+example : 100 ≤ Gen.PipeSpawns.loops.length ∧
+    (Gen.PipeSpawns.loops.filter (fun l => l.2.1 == "sendToMembers" && l.2.2.2.1 == "forever" &&
+      l.2.2.2.2.2 == "ctx-select")).length = 1 ∧
+    (Gen.PipeSpawns.loops.filter (fun l => l.2.1 == "genDealsAndSend" && l.2.2.2.1 == "forever" &&
+      l.2.2.2.2.2 == "ctx-select")).length = 1 ∧
+    opaqueLoops.contains ("dosnode", "dispatchSign", 1, "forever", "for", "opaque") = false := by decide +kernel
+
+/-- **forever_loops_can_leave_on_a_context.**  Every `for {` loop of a function of dos_stages /
+dos_query_handler / pdkg / pdkg_pipes / utils — i.e. of the packages dosnode, share/dkg/pedersen, utils
+outside the three pinned node-level loops and the daemon `pdkg.Loop` — contains a `select` with a `<-ctx.Done()` case: W4 as DESIGN §6
+words it ("every loop contains a guarded operation whose context alternative leaves the loop"), checked
+on the source syntax; the IR-level W4 (`LiveOk`) then certifies that the alternative does lead to the exit. -/
+theorem forever_loops_can_leave_on_a_context :
+    Gen.PipeSpawns.loops.all (fun l =>
+      !(l.1 == "dosnode" || l.1 == "share/dkg/pedersen" || l.1 == "utils") || l.2.2.2.1 != "forever" ||
+      l.2.2.2.2.2 == "ctx-select" || opaqueLoops.contains l ||
+      -- the collector loop of the key-generation package is a daemon without a context of its own
+      (l.2.1 == "pdkg.Loop" && l.2.2.2.2.2 == "chan-op")) = true := by
+  decide +kernel
+
+example : 8 ≤ (Gen.PipeSpawns.loops.filter (fun l => (l.1 == "dosnode" || l.1 == "share/dkg/pedersen") &&
+    l.2.2.2.1 == "forever" && l.2.2.2.2.2 == "ctx-select")).length := by decide +kernel
+
+/-! ## external calls
+
+The translator treats `p.Request` / `p.Reply`, the chain calls of the stages and the HTTP fetch as opaque
+calls that return (`Fair.data`).  What makes them return is in the callee; the extractor reads it. -/
+
+/-- **external_calls_are_bounded.**  Each external call of the stages has, in its callee, the mechanism that
+bounds it: `dataFetch` builds its `http.Client` with a `Timeout`; `p2p` `Request` / `Reply` derive a
+context with a timeout from the caller's; the chain calls `DataReturn`, `UpdateRandomness`,
+`RegisterGroupPubKey` run under `context.WithTimeout(e.ctx, e.setTimeout)`.  Removing one of them (review
+G, finding 3: `&http.Client{}`) makes the fact `none` and breaks this theorem.  The durations are not
+compared with anything: a bounded call returns, which is all the `data` clause assumes. -/
+theorem external_calls_are_bounded :
+    Gen.PipeSpawns.externalCalls.length = 6 ∧
+    Gen.PipeSpawns.externalCalls.all (fun e => e.2.2 != "none" && e.2.2 != "function not found") = true ∧
+    Gen.PipeSpawns.externalCalls.any (fun e => e.2.1 == "dosnode.dataFetch" && e.2.2.startsWith "http.Client{Timeout: ") = true ∧
+    (Gen.PipeSpawns.externalCalls.filter (fun e => e.2.2.startsWith "context.WithTimeout(")).length = 5 := by
+  decide +kernel
+
+example : Gen.PipeSpawns.externalCalls.any (fun e => e.2.1 == "p2p.Request") = true := by decide +kernel
+
 /-! ## timers
 
 `Fair.timer` (Model/PipeRun.lean) — "a timer alternative of a `select` that is executed infinitely often
